@@ -77,8 +77,25 @@ fn why(e: &Error) -> &'static str {
     }
 }
 
+/// an ItemVariationStore over one axis whose subtable i has `ks[i]` regions, each with peak 1.0 (so that at the
+/// location [1.0] every region scalar is 1)
+pub fn blend_store(ks: &[usize]) -> Vec<u8> {
+    use write_fonts::tables::variations::{ItemVariationData, ItemVariationStore, RegionAxisCoordinates, VariationRegion, VariationRegionList};
+    let one = font_types::F2Dot14::from_f32(1.0);
+    let nreg = ks.iter().copied().max().unwrap_or(0).max(1);
+    let regions: Vec<VariationRegion> = (0..nreg).map(|_| VariationRegion::new(vec![RegionAxisCoordinates { start_coord: font_types::F2Dot14::ZERO, peak_coord: one, end_coord: one }])).collect();
+    let datas: Vec<Option<ItemVariationData>> = ks.iter().map(|k| Some(ItemVariationData::new(0, 0, (0..*k as u16).collect(), vec![]))).collect();
+    write_fonts::dump_table(&ItemVariationStore::new(VariationRegionList::new(1, regions), datas)).expect("store")
+}
+
 /// (status, why, commands) or the panic message
 pub fn run(main: &[u8], g: &[Vec<u8>], l: Option<&[Vec<u8>]>) -> Result<(String, String, Vec<Vec<i64>>), String> {
+    run_blend(main, g, l, &[])
+}
+
+pub fn run_blend(main: &[u8], g: &[Vec<u8>], l: Option<&[Vec<u8>]>, bk: &[usize]) -> Result<(String, String, Vec<Vec<i64>>), String> {
+    let store_bytes = if bk.is_empty() { vec![] } else { blend_store(bk) };
+    let coords = [font_types::F2Dot14::from_f32(1.0)];
     let gb = index1(g);
     let lb = l.map(index1);
     guarded(|| {
@@ -97,7 +114,14 @@ pub fn run(main: &[u8], g: &[Vec<u8>], l: Option<&[Vec<u8>]>) -> Result<(String,
             _ => None,
         };
         let mut sink = Rec::default();
-        let r = evaluate(main, gi, li, None, &mut sink);
+        let blend = if bk.is_empty() {
+            None
+        } else {
+            use read_fonts::FontRead;
+            let store = read_fonts::tables::variations::ItemVariationStore::read(read_fonts::FontData::new(&store_bytes)).map_err(|e| format!("blend store: {e}"))?;
+            Some(read_fonts::tables::postscript::BlendState::new(store, &coords, 0).map_err(|e| format!("blend state: {e}"))?)
+        };
+        let r = evaluate(main, gi, li, blend, &mut sink);
         Ok::<_, String>(match r {
             Ok(()) => ("ok".to_string(), String::new(), sink.0),
             Err(e) => ("err".to_string(), why(&e).to_string(), sink.0),
@@ -122,7 +146,8 @@ pub fn main(args: &[String]) {
             let path = arg_after(args, "--cases").expect("--cases");
             fvcore::tlc_stream(&path, &["CASE"], |_, c| {
                 let l = subrs_of(&c["l"]);
-                let r = run(&bytes_of(&c["main"]), &subrs_of(&c["g"]), if c["hl"].as_bool().unwrap_or(false) { Some(&l) } else { None });
+                let bk: Vec<usize> = c["bk"].as_array().map(|a| a.iter().map(|v| v.as_u64().unwrap() as usize).collect()).unwrap_or_default();
+                let r = run_blend(&bytes_of(&c["main"]), &subrs_of(&c["g"]), if c["hl"].as_bool().unwrap_or(false) { Some(&l) } else { None }, &bk);
                 match r {
                     Ok((status, why, cmds)) => println!("CSR {}", json!({"status": status, "why": why, "cmds": cmds})),
                     Err(p) => println!("CSR {}", json!({"panic": p})),
@@ -149,7 +174,7 @@ pub fn main(args: &[String]) {
                 };
                 k += 1;
                 rep.evaluations += 1;
-                let case = json!({"kind": "charstring-case", "case": {"main": c["main"], "g": c["g"], "l": c["l"], "hl": c["hl"]}, "model": {"status": c["status"], "why": c["why"]}});
+                let case = json!({"kind": "charstring-case", "case": {"main": c["main"], "g": c["g"], "l": c["l"], "hl": c["hl"], "bk": c["bk"]}, "model": {"status": c["status"], "why": c["why"]}});
                 if let Some(p) = r.get("panic") {
                     return rep.violation(&format!("charstring evaluation panicked: {p}"), case);
                 }
@@ -170,7 +195,7 @@ pub fn main(args: &[String]) {
                 } else {
                     rep.distinct += 1;
                 }
-                ev.push(json!({"op": "charstring", "main": c["main"], "g": c["g"], "l": c["l"], "hl": c["hl"], "status": r["status"], "why": r["why"], "cmds": r["cmds"]}));
+                ev.push(json!({"op": "charstring", "main": c["main"], "g": c["g"], "l": c["l"], "hl": c["hl"], "bk": c["bk"], "status": r["status"], "why": r["why"], "cmds": r["cmds"]}));
             });
             if !finished && results.len() >= k {
                 rep.violation(&format!("the replay child did not finish ({:?})", o.status), json!({"kind": "charstring-crash"}));
@@ -255,7 +280,7 @@ pub fn main(args: &[String]) {
                                 if cmds.iter().flatten().any(|v| v.abs() > 16_000 * 65536) {
                                     continue; // beyond the exact range of the specification's integers
                                 }
-                                ev.push(json!({"op": "charstring", "font": name, "gid": gid, "main": main, "g": g, "l": l.clone().unwrap_or_default(), "hl": l.is_some(), "status": status, "why": why, "cmds": cmds}));
+                                ev.push(json!({"op": "charstring", "font": name, "gid": gid, "main": main, "g": g, "l": l.clone().unwrap_or_default(), "hl": l.is_some(), "bk": [], "status": status, "why": why, "cmds": cmds}));
                                 rep.distinct += 1;
                             }
                         }
